@@ -59,6 +59,57 @@ class Ctx:
         return '%s:%s in %s' % (body.file, line if line is not None else body.line, body.name)
 
 
+PROP_MODULES = {
+    'C14': ('deadpool_sync', 'deadpool_runtime'), 'C15': ('deadpool_sync', 'deadpool_sqlite', 'deadpool_diesel', 'deadpool_r2d2'),
+    'C16': ('deadpool_postgres',), 'C18': ('deadpool_postgres',), 'C17': ('deadpool_redis',), 'C19': ('deadpool_redis',),
+    'C05': ('deadpool::unmanaged',), 'C12': ('deadpool::unmanaged',), 'C10': ('deadpool::managed', 'deadpool::unmanaged'),
+}
+
+
+def private_error_boundary(prog, prop):
+    """private error types of the property's modules that are converted to a public error type by a `From` impl: values of such a
+    type become the public error inside std's `from_residual` / `Into::into`, where no rule looks.  Returns [(private, public)]."""
+    mods = PROP_MODULES.get(prop, ('deadpool::managed',))
+    out = []
+    for b in prog.bodies.values():
+        if b.j.get('impl_trait') != 'std::convert::From':
+            continue
+        tref = b.j.get('impl_trait_ref') or ''
+        self_ty = (b.j.get('impl_self') or '').split('<')[0]
+        src = tref.split(' as std::convert::From<', 1)[-1].split('<')[0].rstrip('>') if ' as std::convert::From<' in tref else ''
+        if not src or not any(src.startswith(m) for m in mods):
+            continue
+        a_src = a_dst = None
+        for c in prog.crates.values():
+            a_src = a_src or c.adt(src)
+            a_dst = a_dst or c.adt(self_ty)
+        dst_pub = (a_dst is not None and a_dst.get('vis') == 'pub') or (a_dst is None and self_ty.split('::')[-1].endswith('Error'))      # (a re-exported path is not found by name)
+        if a_src is None or a_src.get('vis') == 'pub' or not dst_pub or src == self_ty:
+            continue
+        # the private type is really used: constructed somewhere in the modules
+        used = any(st.kind == 'assign' and st.rv.kind == 'agg' and st.rv.j.get('adt') == src for b2 in prog.bodies.values() if any(b2.path.lstrip('<').startswith(m) for m in mods)
+                   for blk in b2.blocks for st in blk.stmts)
+        if used:
+            out.append((src, self_ty))
+    # the same through a conversion function instead of a From impl: `fn into_pool_error(self) -> PoolError<E>` on a private enum
+    for b in prog.bodies.values():
+        if b.kind not in ('Fn', 'AssocFn') or not any(b.path.lstrip('<').startswith(m) for m in mods):
+            continue
+        ins = b.j.get('inputs') or []
+        outp = (b.j.get('output') or '').split('<')[0]
+        if len(ins) != 1 or not outp.endswith('Error'):
+            continue
+        src = ins[0].split('<')[0]
+        a_src = a_dst = None
+        for c in prog.crates.values():
+            a_src = a_src or c.adt(src)
+            a_dst = a_dst or c.adt(outp)
+        if a_src is None or a_src.get('vis') == 'pub' or (a_dst is not None and a_dst.get('vis') != 'pub') or a_src.get('kind') != 'Enum' or src == outp:
+            continue
+        out.append((src, outp))
+    return sorted(set(out))
+
+
 def load_known():
     p = os.path.join(VERIF, 'known_findings.json')
     if not os.path.exists(p):
